@@ -12,7 +12,7 @@ package knownhosts
 //@ pure
 //@ ensures result == G(pat, str)
 //@ loop 1 invariant G(pat, str) == G(entry(pat), entry(str))
-//@ loop 2 invariant -1 <= rangeindex && rangeindex < len(str)
+//@ loop 2 invariant 0 <= j && j <= len(str)+1
 //@ loop 2 invariant spec.globstar(row(pat), off(pat)+1, len(pat)-1, row(str), off(str), len(str), 0) ==
-//@ |   spec.globstar(row(pat), off(pat)+1, len(pat)-1, row(str), off(str), len(str), rangeindex+1)
+//@ |   spec.globstar(row(pat), off(pat)+1, len(pat)-1, row(str), off(str), len(str), j)
 //@ canary ensures result == (len(pat) == len(str))
